@@ -12,6 +12,7 @@ import (
 	"strconv"
 	"strings"
 	"sync"
+	"sync/atomic"
 
 	ebu "github.com/jilio/ebu"
 )
@@ -21,6 +22,11 @@ type Ev[Tag any] struct {
 	ID uint64
 	S  string
 }
+
+// Identified is implemented by the generic event types: a filter may be declared on it.
+type Identified interface{ EvID() uint64 }
+
+func (e Ev[Tag]) EvID() uint64 { return e.ID }
 
 func payload(id uint64) string { return "p" + strconv.FormatUint(id*2654435761%1000003, 36) }
 
@@ -79,9 +85,10 @@ type Driver interface {
 }
 
 type drv[T any] struct {
-	name string
-	mk   func(uint64) T
-	id   func(T) (uint64, bool)
+	filterN atomic.Int64
+	name    string
+	mk      func(uint64) T
+	id      func(T) (uint64, bool)
 }
 
 func newDrv[T any](name string, mk func(uint64) T, id func(T) (uint64, bool)) Driver {
@@ -156,7 +163,14 @@ func (d *drv[T]) opts(o SubOpts) []ebu.SubscribeOption {
 	}
 	if o.Filter != nil {
 		f := o.Filter
-		r = append(r, ebu.WithFilter(func(e T) bool { id, _ := d.id(e); return f(id) }))
+		var zero T
+		if _, ok := any(zero).(Identified); ok && d.filterN.Add(1)%2 == 0 {
+			// every other filter of these event types is declared on an interface the event implements
+			// (one predicate shared by a family of event types) instead of on the event type itself
+			r = append(r, ebu.WithFilter(func(e Identified) bool { return f(e.EvID()) }))
+		} else {
+			r = append(r, ebu.WithFilter(func(e T) bool { id, _ := d.id(e); return f(id) }))
+		}
 	}
 	return r
 }
